@@ -41,7 +41,24 @@ func RealBarrier(env *core.Env, rep *core.Report, rounds int) int {
 			if err != nil {
 				core.Broken("barrier graph: %v", err)
 			}
-			tr, _ := runner.NewTaskRunner()
+			// every other round the tasks share a named execution context with up / before / after /
+			// down hooks (and, for k >= 3, a task-level before and after hook): sharing a context must
+			// not serialise them either
+			var opts []runner.Opts
+			withCtx := r%2 == 0
+			if withCtx {
+				t.Context = "shared-ctx"
+				if k >= 3 {
+					t.Before, t.After = []string{"true"}, []string{"true"}
+				}
+				for _, st := range stages {
+					st.Task.Context, st.Task.Before, st.Task.After = t.Context, t.Before, t.After
+				}
+				opts = append(opts, runner.WithContexts(map[string]*runner.ExecutionContext{
+					"shared-ctx": runner.NewExecutionContext(nil, "", variables.NewVariables(), []string{"true"}, []string{"true"}, []string{"true"}, []string{"true"}),
+				}))
+			}
+			tr, _ := runner.NewTaskRunner(opts...)
 			tr.Stdout, tr.Stderr = ioutil.Discard, ioutil.Discard
 			sd := scheduler.NewScheduler(tr)
 			sd.VerifSetPause(time.Millisecond)
@@ -61,7 +78,7 @@ func RealBarrier(env *core.Env, rep *core.Report, rounds int) int {
 			}
 			if !returned || serr != nil {
 				rep.Add(core.Finding{Prop: "C04", Key: "C04:real-runner:independent-stages-do-not-overlap",
-					What:   fmt.Sprintf("%d independent stages (one task name, per-stage env) that each wait for a neighbour to be running: returned=%v error=%v statuses=%v", k, returned, serr, sts),
+					What:   fmt.Sprintf("%d independent stages (one task name, per-stage env, shared context with hooks: %v) that each wait for a neighbour to be running: returned=%v error=%v statuses=%v", k, withCtx, returned, serr, sts),
 					Detail: map[string]interface{}{"stages": k}})
 				return n
 			}
